@@ -1,13 +1,15 @@
 (* C16 -- property theorems only.  Each is closed by `exact <lemma>`.  Subjects: the closest-point kernels regenerated from
    /repo (OV.gen.Gen_EdgeCpp / Gen_Surface / Gen_Levelset / Gen_MortarContact) at T := R, and the hand model of the mortar
-   integrals and the penalty energy (OV.model.M_C16_Mortar, tied to the implementation by the correspondence in ./check C16).
+   integrals and the penalty energy (OV.model.M_C16_Mortar, tied to the implementation by the correspondence in ./check C16), and the hand model of
+   the mesh-level level-set / penalty functions (OV.model.M_C16_Mesh: gathers over elements, sides and rule points; tied by the
+   exact mesh correspondence stream).
    Vocabulary (proofs/L_C16.v): d2 = squared distance, dist = sqrt d2, lerp t u v = (1-t)u + t v,
    tline = parameter of the orthogonal projection on the line, rx/ry = rotation (c,s) followed by translation (tx,ty). *)
 From Coq Require Import Reals List.
 From OV.base Require Import Num.
 From OV.gen Require Import Gen_Surface Gen_EdgeCpp Gen_Levelset Gen_MortarContact.
-From OV.model Require Import M_C16_Mortar.
-From OV.proofs Require Import L_C18 L_C16 L_C16m.
+From OV.model Require Import M_C16_Mortar M_C16_Mesh.
+From OV.proofs Require Import L_C18 L_C16 L_C16m L_C16h.
 Import ListNotations.
 Local Open Scope R_scope.
 
@@ -134,17 +136,104 @@ Theorem C16_levelset_sphere_sign : forall x0 x1 xLoc yLoc Rad, 0 <= Rad ->
   (0 <= @sphere R NumR x0 x1 xLoc yLoc Rad <-> Rad * Rad <= d2 x0 x1 xLoc yLoc).
 Proof. exact sphere_sign. Qed.
 
-(* NOT PROVED (binary64): the theorems are over exact reals.  In floating point the implementation departs in two documented
-   ways that the real model cannot express (division by zero is total in R): (i) with the average-normal rule two segments
-   with bitwise equal normals give 0/0 = NaN for the common normal and a NaN integral (known finding C16-F1);
-   (ii) when a 2x2 system is singular jnp.linalg.solve returns inf/NaN, which the validity mask discards.
-   NOT PROVED: the level-set clause "constraint values equal the obstacle function at x + u interpolated at the rule's points"
-   for the mesh-level functions (NumPy fancy indexing, not modelled); it is definitional in the source and is checked on real
-   meshes by the correspondence (L2). *)
+(* ---- mesh level: LevelsetConstraint.compute_levelset_constraints / compute_contact_point_coordinates,
+        PenaltyContact.evaluate_contact_constraints / compute_total_penalty_contact_energy (model/M_C16_Mesh.v).
+   Vocabulary (proofs/L_C16h.v): lookupZ l z = Some x iff 0 <= z < length l and x is entry z;  pick3 (a,b,c) k = entry k of a
+   connectivity row;  sample_point X0 U0 X1 U1 xi = (X0+U0) + ((X1+U1) - (X0+U0)) * xi componentwise, in the numeric type;
+   edge_ok = element, side, both nodes in range (coords and disp) and distinct REFERENCE end points. ---- *)
+(* the constraint array has one row per edge and one column per rule point *)
+Theorem C16_mesh_levelset_shape : forall (T : Type) (NT : Num T) (phi : T -> T -> T) coords disp conns xig edges,
+  length (levelset_constraints phi coords disp conns xig edges) = length edges /\
+  (forall row, In row (levelset_constraints phi coords disp conns xig edges) -> length row = length xig) /\
+  length (contact_point_coordinates coords disp conns xig edges) = length edges /\
+  (forall row, In row (contact_point_coordinates coords disp conns xig edges) -> length row = length xig).
+Proof. exact @mesh_constraints_shape. Qed.
+(* level-set clause, every numeric type (binary64 included): entry (i, q) is the obstacle function at x + u interpolated at rule
+   point q between the two nodes conns[el][s], conns[el][(s+1) mod 3] of edge i = (el, s) *)
+Theorem C16_mesh_levelset_pointwise : forall (T : Type) (NT : Num T) (phi : T -> T -> T) coords disp conns xig edges
+    i q el s c (X0 U0 X1 U1 : T * T) xi,
+  nth_error edges i = Some (el, s) -> lookupZ conns el = Some c -> (0 <= s <= 2)%Z ->
+  lookupZ coords (pick3 c s) = Some X0 -> lookupZ disp (pick3 c s) = Some U0 ->
+  lookupZ coords (pick3 c ((s + 1) mod 3)%Z) = Some X1 -> lookupZ disp (pick3 c ((s + 1) mod 3)%Z) = Some U1 ->
+  nth_error xig q = Some xi ->
+  exists row, nth_error (levelset_constraints phi coords disp conns xig edges) i = Some row /\
+              nth_error row q = Some (phi (fst (sample_point X0 U0 X1 U1 xi)) (snd (sample_point X0 U0 X1 U1 xi))).
+Proof. exact @mesh_constraint_entry. Qed.
+Theorem C16_mesh_contact_point_coordinates : forall (T : Type) (NT : Num T) coords disp conns xig edges i q el s c (X0 U0 X1 U1 : T * T) xi,
+  nth_error edges i = Some (el, s) -> lookupZ conns el = Some c -> (0 <= s <= 2)%Z ->
+  lookupZ coords (pick3 c s) = Some X0 -> lookupZ disp (pick3 c s) = Some U0 ->
+  lookupZ coords (pick3 c ((s + 1) mod 3)%Z) = Some X1 -> lookupZ disp (pick3 c ((s + 1) mod 3)%Z) = Some U1 ->
+  nth_error xig q = Some xi ->
+  exists row, nth_error (contact_point_coordinates coords disp conns xig edges) i = Some row /\
+              nth_error row q = Some (sample_point X0 U0 X1 U1 xi).
+Proof. exact @mesh_contact_point_entry. Qed.
+Theorem C16_mesh_constraints_are_levelset_at_contact_points : forall (T : Type) (NT : Num T) (phi : T -> T -> T) coords disp conns xig edges,
+  levelset_constraints phi coords disp conns xig edges
+  = map (map (fun p : T * T => phi (fst p) (snd p))) (contact_point_coordinates coords disp conns xig edges).
+Proof. exact @mesh_constraints_are_phi_at_contact_points. Qed.
+(* over R the sample point is the convex combination lerp xi (x0+u0) (x1+u1) of the two deformed end nodes *)
+Theorem C16_mesh_levelset_pointwise_R : forall (phi : R -> R -> R) coords disp conns xig edges i q el s c (X0 U0 X1 U1 : R * R) xi,
+  nth_error edges i = Some (el, s) -> lookupZ conns el = Some c -> (0 <= s <= 2)%Z ->
+  lookupZ coords (pick3 c s) = Some X0 -> lookupZ disp (pick3 c s) = Some U0 ->
+  lookupZ coords (pick3 c ((s + 1) mod 3)%Z) = Some X1 -> lookupZ disp (pick3 c ((s + 1) mod 3)%Z) = Some U1 ->
+  nth_error xig q = Some xi ->
+  exists row, nth_error (@levelset_constraints R NumR phi coords disp conns xig edges) i = Some row /\
+              nth_error row q = Some (phi (lerp xi (fst X0 + fst U0) (fst X1 + fst U1)) (lerp xi (snd X0 + snd U0) (snd X1 + snd U1))).
+Proof. exact mesh_constraint_entry_R. Qed.
+(* the mesh-level penalty energy IS the sample-level energy of C16_penalty_total on (stiffness, reference edge length, rule
+   weights paired with the constraint row) -- every numeric type *)
+Theorem C16_mesh_penalty_is_sample_penalty : forall (T : Type) (NT : Num T) (phi : T -> T -> T) coords disp conns xig wg edges k,
+  total_penalty_contact_energy phi coords disp conns xig wg edges k
+  = penalty_total (map (fun edge => (k, edge_jac (eval_field pzero coords (get_field_index conns edge)),
+                                     combine wg (edge_levelset_constraints phi coords disp conns xig edge))) edges).
+Proof. exact @mesh_total_energy_is_penalty_total. Qed.
+(* penalty clause at mesh level: energy >= 0, and = 0 exactly when no entry of the constraint array is negative *)
+Theorem C16_mesh_penalty_sign : forall (phi : R -> R -> R) coords disp conns xig wg edges k,
+  0 < k -> (forall w, In w wg -> 0 < w) -> length wg = length xig -> (forall e, In e edges -> edge_ok coords disp conns e) ->
+  0 <= @total_penalty_contact_energy R NumR phi coords disp conns xig wg edges k /\
+  (@total_penalty_contact_energy R NumR phi coords disp conns xig wg edges k = 0 <->
+   forall row v, In row (@levelset_constraints R NumR phi coords disp conns xig edges) -> In v row -> 0 <= v).
+Proof. exact mesh_penalty_sign. Qed.
+(* ... i.e. exactly when no deformed sample point is strictly inside the obstacle (plane / corner / circle of the source) *)
+Theorem C16_mesh_penalty_zero_plane : forall yLoc coords disp conns xig wg edges k,
+  0 < k -> (forall w, In w wg -> 0 < w) -> length wg = length xig -> (forall e, In e edges -> edge_ok coords disp conns e) ->
+  (@total_penalty_contact_energy R NumR (fun x y => @plane R NumR x y yLoc) coords disp conns xig wg edges k = 0 <->
+   forall row p, In row (@contact_point_coordinates R NumR coords disp conns xig edges) -> In p row -> snd p <= yLoc).
+Proof. exact mesh_penalty_zero_plane. Qed.
+Theorem C16_mesh_penalty_zero_corner : forall xLoc yLoc coords disp conns xig wg edges k,
+  0 < k -> (forall w, In w wg -> 0 < w) -> length wg = length xig -> (forall e, In e edges -> edge_ok coords disp conns e) ->
+  (@total_penalty_contact_energy R NumR (fun x y => @corner R NumR x y xLoc yLoc) coords disp conns xig wg edges k = 0 <->
+   forall row p, In row (@contact_point_coordinates R NumR coords disp conns xig edges) -> In p row -> xLoc <= fst p /\ yLoc <= snd p).
+Proof. exact mesh_penalty_zero_corner. Qed.
+Theorem C16_mesh_penalty_zero_sphere : forall xLoc yLoc Rad coords disp conns xig wg edges k, 0 <= Rad ->
+  0 < k -> (forall w, In w wg -> 0 < w) -> length wg = length xig -> (forall e, In e edges -> edge_ok coords disp conns e) ->
+  (@total_penalty_contact_energy R NumR (fun x y => @sphere R NumR x y xLoc yLoc Rad) coords disp conns xig wg edges k = 0 <->
+   forall row p, In row (@contact_point_coordinates R NumR coords disp conns xig edges) -> In p row ->
+                 Rad * Rad <= d2 (fst p) (snd p) xLoc yLoc).
+Proof. exact mesh_penalty_zero_sphere. Qed.
+
+(* NOT PROVED (binary64): the theorems about distances, mortar integrals and the SIGN of the penalty energy are over exact reals.
+   In floating point the implementation departs in two documented ways that the real model cannot express (division by zero is
+   total in R): (i) with the average-normal rule two segments with bitwise equal normals give 0/0 = NaN for the common normal and
+   a NaN integral (known finding C16-F1); (ii) when a 2x2 system is singular jnp.linalg.solve returns inf/NaN, which the validity
+   mask discards.
+   PROVED since round 3 (was NOT PROVED): the level-set clause for the mesh-level functions -- C16_mesh_levelset_pointwise (every
+   numeric type, binary64 included: it is a statement about which nodes are gathered and which expression is evaluated),
+   C16_mesh_contact_point_coordinates, C16_mesh_penalty_sign and the obstacle-specific corollaries.
+   NOT MODELLED there: JAX's treatment of out-of-range indices (negative indices wrap, too large ones are clamped); the theorems
+   require in-range elements / sides / nodes (lookupZ ... = Some ...), and a vectorised user obstacle function is modelled as a
+   pointwise phi (plane / corner / sphere are regenerated pointwise; Levelset.combined is checked on the implementation only).
+   The friction potential of LevelsetConstraint.py is outside C16. *)
 
 Example C16_nonvacuous : (0 < 1 <= 1 / 2 + 1 / 2) /\ (3 / 5 * (3 / 5) + 4 / 5 * (4 / 5) = 1) /\ Rmax 0 (1 / 4) <= Rmin 1 (3 / 4) /\
   fold_right (fun q acc => snd q + acc) 0 [(1 / 4, 1 / 2); (3 / 4, 1 / 2)] = 1 /\ vP (1 / 2, 1 / 2, 0).
 Proof. exact C16_mortar_nonvacuous. Qed.
+Example C16_mesh_level_nonvacuous :
+  (forall e, In e [(0, 2)%Z] -> edge_ok ex_coords ex_disp ex_conns e) /\ (forall w, In w [1 / 2; 1 / 2] -> 0 < w) /\
+  @levelset_constraints R NumR (fun x y => @plane R NumR x y 2) ex_coords ex_disp ex_conns [1 / 4; 3 / 4] [(0, 2)%Z] = [[19 / 16; 25 / 16]] /\
+  @total_penalty_contact_energy R NumR (fun x y => @plane R NumR x y 2) ex_coords ex_disp ex_conns [1 / 4; 3 / 4] [1 / 2; 1 / 2] [(0, 2)%Z] 10 = 0 /\
+  0 < @total_penalty_contact_energy R NumR (fun x y => @plane R NumR x y (1 / 2)) ex_coords ex_disp ex_conns [1 / 4; 3 / 4] [1 / 2; 1 / 2] [(0, 2)%Z] 10.
+Proof. exact C16_mesh_nonvacuous. Qed.
 
 Print Assumptions C16_cpp_nearest.
 Print Assumptions C16_signed_distance_abs.
@@ -152,3 +241,5 @@ Print Assumptions C16_signed_distance_sign.
 Print Assumptions C16_signed_distance_rigid.
 Print Assumptions C16_mortar_rigid_invariance_average.
 Print Assumptions C16_parallel_segments.
+Print Assumptions C16_mesh_levelset_pointwise.
+Print Assumptions C16_mesh_penalty_sign.
